@@ -376,6 +376,11 @@ func bgvEvalOnce(c *eng.Ctx, rnd *eng.Rand, cfg bgvCfg, params bgv.Parameters, s
 		return fmt.Sprintf("%+v: output scale %d, requested %d", job, res.Scale.Uint64(), job.TgtScale)
 	})
 	c.Check(res.Degree() == 1, sigp+"|output-degree", func() string { return fmt.Sprintf("%+v: degree %d", job, res.Degree()) })
+	// metadata other than the scale (packing, NTT / Montgomery domain) is that of the input
+	c.Check(metaSame(res.MetaData, ct.MetaData), sigp+"|output-metadata", func() string {
+		return fmt.Sprintf("%+v: output metadata %+v / %+v, input %+v / %+v", job, res.PlaintextMetaData, res.CiphertextMetaData, ct.PlaintextMetaData, ct.CiphertextMetaData)
+	})
+	c.Count("metadata_checks", 1)
 	// values
 	out := make([]uint64, slots)
 	if !c.Try(sigp+"|decode", func() { err = ecd.Decode(dec.DecryptNew(res), out) }) || err != nil {
